@@ -326,6 +326,49 @@ func ruleTomb2(c *Ctx) []*Ob {
 	if n == 0 {
 		o.add(fn, "copy-out of the Get result", c.pos(f.Pos()), false, "anchor lost: Footer.Get no longer delegates to its stack's Get")
 	}
+	// nobody on the read path switches the caller's options to NoCopyValue
+	nov := 0
+	for _, g := range c.Funcs {
+		eachInstr(g, func(i ssa.Instruction) {
+			st, ok := i.(*ssa.Store)
+			if !ok {
+				return
+			}
+			fv, base := asFieldAddr(st.Addr)
+			if fv != fNoCopy {
+				return
+			}
+			a, isA := base.(*ssa.Alloc)
+			if !isA {
+				return
+			}
+			// does the struct come from a parameter (the caller's options)?
+			fromParam := false
+			if refs := a.Referrers(); refs != nil {
+				for _, r := range *refs {
+					if ws, isW := r.(*ssa.Store); isW && ws.Addr == ssa.Value(a) {
+						for _, og := range origins(ws.Val) {
+							if _, isP := og.(*ssa.Parameter); isP {
+								fromParam = true
+							}
+						}
+					}
+				}
+			}
+			if !fromParam {
+				return
+			}
+			if v, isC := constBool(st.Val); isC && !v {
+				return
+			}
+			nov++
+			o.add(c.fname(g), "caller's ReadOptions.NoCopyValue overwritten", c.instrPos(st), false,
+				"the caller's read options are changed to NoCopyValue before being handed to a lower lookup: a copying Get can then return a slice of the mmap'ed file, which dies with the snapshot")
+		})
+	}
+	if nov == 0 {
+		o.trivial("read path", "caller's ReadOptions.NoCopyValue never overwritten", c.pos(f.Pos()), "no function switches options received from its caller to NoCopyValue")
+	}
 	return o.list
 }
 
@@ -381,6 +424,45 @@ func ruleMrg1(c *Ctx) []*Ob {
 	if len(seeds) == 0 || len(muts) == 0 {
 		o.add(fn, "dest.Mutate(op)", c.pos(mi.Pos()), false, "anchor lost: mergeInto's operation sources or Mutate calls")
 		return o.list
+	}
+	// the resolution itself sees the whole chain: ss.get(key, top, base, options) with the lower level not skipped
+	fSkipLL := c.Field("ReadOptions", "SkipLowerLevel")
+	ssget := c.Fn("(*segmentStack).get")
+	baseP := paramNamed(mi, "base")
+	for _, k := range callsToFn(mi, ssget) {
+		okBase := baseP != nil && len(k.Call.Args) >= 5 && sameValue(k.Call.Args[3], baseP)
+		skips := false
+		if len(k.Call.Args) >= 5 {
+			if ld, isLd := k.Call.Args[4].(*ssa.UnOp); isLd && ld.Op == token.MUL {
+				if a, isA := ld.X.(*ssa.Alloc); isA {
+					if refs := a.Referrers(); refs != nil {
+						for _, r := range *refs {
+							if fa, ok := r.(*ssa.FieldAddr); ok && fieldAddrVar(fa) == fSkipLL {
+								if rr := fa.Referrers(); rr != nil {
+									for _, u := range *rr {
+										if st, ok := u.(*ssa.Store); ok && st.Addr == ssa.Value(fa) {
+											if v, isC := constBool(st.Val); !isC || v {
+												skips = true
+											}
+										}
+									}
+								}
+							}
+						}
+					}
+				}
+			} else if _, isConst := k.Call.Args[4].(*ssa.Const); !isConst {
+				skips = true // options of unknown origin
+			}
+		}
+		ok := okBase && !skips
+		why := "the Merge is resolved over the whole chain: own segments, the base passed in, and the lower level"
+		if !okBase {
+			why = "the Merge is resolved without the base handed to mergeInto: operands in the stack being persisted are lost"
+		} else if skips {
+			why = "the Merge is resolved with SkipLowerLevel set: the fold starts from nil instead of the value already in the lower level, and the result is written back as an absolute Set"
+		}
+		o.add(fn, "Merge resolved over the full chain", c.instrPos(k), ok, why)
 	}
 	for _, m := range muts {
 		rawReaches := false
